@@ -32,6 +32,8 @@ pub struct IceptConfig {
     pub shuffle: Option<u64>,
     /// random faults: each operation fails with probability num/den (seeded)
     pub random_faults: Option<(u32, u32, u64)>,
+    /// move the clocks forward by an hour before every k-th operation (needs the LD_PRELOAD shim)
+    pub clock_jump_every: Option<usize>,
 }
 
 #[derive(Default)]
@@ -126,6 +128,12 @@ impl Interceptor for Icept {
             return Decision::Fail(ErrorKind::Other);
         }
         let path = norm_path(&op.path);
+        if let Some(k) = self.cfg.clock_jump_every {
+            let seen: usize = st.counts.values().sum();
+            if k > 0 && seen % k == k - 1 {
+                crate::clock::jump(3600);
+            }
+        }
         let key = (op.verb, path.clone());
         let n = *st.counts.get(&key).unwrap_or(&0);
         st.counts.insert(key, n + 1);
